@@ -496,6 +496,11 @@ class CompiledChemicals(Chemicals):
             if i in self._group_wt_compositions:
                 raise ValueError(f"'{i}' is a group; cannot define new group using other groups")
         index = self.indices(IDs)
+        if name in self._index: # Cached lookups of a redefined name are no longer valid
+            from .indexer import MaterialIndexer
+            self._index_cache.clear()
+            for (phases, chemicals), cache in MaterialIndexer._index_caches.items():
+                if chemicals is self: cache.clear()
         self.__dict__[name] = [self.tuple[i] for i in index]
         self._index[name] = index
         composition = np.asarray(composition, float)
